@@ -489,6 +489,37 @@ def exhaustive_strings(alpha, maxlen):
     return out
 
 
+ESC_FOLLOW = ["\u00e9", "\u20ac", "\U0001F642", "+", "-", "g", " ", ""]       # 2-, 3-, 4-byte character, signs, a non-hex letter, blank, nothing
+
+
+def escape_family(f):
+    """\\u with 0..4 and \\U with 0..8 hexadecimal digits (also with a sign in front), followed by a character of every
+    UTF-8 length, a sign, a non-hex letter or the closing delimiter: in the three literal quote forms (both quote
+    kinds) and in IRIs.  A truncated escape whose window ends inside a multi-byte character is where a byte-indexed
+    slice panics (seeded change C16r2/1)."""
+    escs = []
+    for u, full in (("u", "00e9"), ("U", "0001F642")):
+        for k in range(len(full) + 1):
+            escs.append("\\" + u + full[:k])
+        escs.append("\\" + u + "+" + full[1:])
+        escs.append("\\" + u + "-" + full[1:])
+        escs.append("\\" + u + full[:-2] + "+" + full[-1:])
+    bodies = [e + x + tail for e in escs for x in ESC_FOLLOW for tail in ("", "1")]
+    if f in ("quoted_literal", "literal_value"):
+        out = []
+        for q in ("\"", "'", "\"\"\"", "'''"):
+            for b in bodies:
+                out.append(q + b + q)
+                if f != "literal_value":
+                    out.append(q + b + q + "@en .")
+        return out
+    if f == "iri":
+        return ["<http://e/" + b + ">" for b in bodies] + ["<" + b + "> ." for b in bodies]
+    if f == "unescape_iri":
+        return ["http://e/" + b for b in bodies]
+    return []
+
+
 def stream_scan(ctx, binpath):
     rng = ctx.rng
     # 1. exhaustive short strings (what makes an off-by-one in the index arithmetic certain to show)
@@ -505,6 +536,7 @@ def stream_scan(ctx, binpath):
             strs += [pre + "\\u" + x for x in exhaustive_strings(["0", "a", "é", ">", "d", "8"], 5 if ctx.thorough else 4)]
         if f == "prefixed_name":
             strs += ["a:" + x for x in exhaustive_strings(["%", "\\", "F", "-", ".", "é", "b", " "], 3)]
+        strs += escape_family(f)
         if f.startswith("keyword:"):
             kw = f.split(":", 1)[1]
             for variant in (kw, kw.lower(), kw.upper(), kw[:-1], kw[1:], kw.swapcase()):
@@ -1515,6 +1547,9 @@ def compare_entries(ctx, binpath, cases, stream):
         iv = impl_parse_value(entry, im, n)
         mv = model_parse_value(entry, mo)
         kinds[iv[0]] = kinds.get(iv[0], 0) + 1
+        if iv[0] in ("Panic", "Died"):
+            ctx.violation(case, {"what": "parser crashed", "impl": im, "model": repr(mv)[:300]})
+            continue
         if mv == ("Ok", ("Extension",)) or (iv[0] == "Ok" and iv[1] == ("Extension",)):
             next_ += 1          # extension grammar: not modelled
             continue
@@ -1633,7 +1668,7 @@ def stream_followers(ctx, binpath):
     complete triple, inside a group graph pattern and inside a quad block (the look-aheads after `;`, the optional
     `.`, `}` / GRAPH / UNION / nested braces).  Implementation == model on the whole result."""
     import itertools
-    toks = [";", ",", ".", "}", "{", "GRAPH ?g {", "UNION", "?x", "<q>", "a"]
+    toks = [";", ",", ".", "}", "{", "GRAPH ?g {", "graph ?g {", "UNION", "Union", "?x", "<q>", "a"]
     if ctx.thorough:
         toks += ["FILTER(?x)", "# c\n", "\"l\"", "_:b"]
     cases = []
@@ -1644,6 +1679,94 @@ def stream_followers(ctx, binpath):
             cases.append(("combined", "INSERT DATA { <s> <p> <o> " + tail + " }"))
     compare_entries(ctx, binpath, cases, "followers")
     ctx.coverage["exhaustive_scope"] = ctx.coverage.get("exhaustive_scope", "") + "; every sequence of <= 3 tokens of %d after a complete triple in a group pattern and in a quad block (%d requests)" % (len(toks), len(cases))
+
+
+KW_RE = re.compile(r"\b(SELECT|DISTINCT|WHERE|GRAPH|UNION|FILTER|BIND|AS|VALUES|UNDEF|FROM|NAMED|GROUP|BY|ORDER|ASC|DESC|LIMIT|INSERT|DELETE|DATA|PREFIX|"
+                   r"SUM|MIN|MAX|AVG|ISTRIPLE|TRIPLE|SUBJECT|PREDICATE|OBJECT)\b")   # not true / false: a term keeps its spelling
+KWCASE_TEMPLATES = [
+    # the look-ahead after a dangling `;` (GRAPH / UNION / `.` / `}`), in WHERE groups and in quad templates
+    "SELECT * WHERE { ?s ?p ?o ; GRAPH ?g { ?a ?b ?c } }",
+    "SELECT * WHERE { ?s ?p ?o ; GRAPH ?g { ?a ?b ?c ; } GRAPH <h> { ?x ?y ?z ; } }",
+    "SELECT * WHERE { ?s ?p ?o , ?q ; ?p2 ?o2 ; GRAPH ?g { ?a ?b ?c } ?x ?y ?z }",
+    "SELECT * WHERE { { ?s ?p ?o ; } UNION { ?a ?b ?c ; } UNION { ?x ?y ?z } }",
+    "SELECT * WHERE { ?s ?p ?o ; UNION { ?a ?b ?c } }",
+    "SELECT * WHERE { ?s ?p ?o . GRAPH ?g { ?a ?b ?c } . GRAPH ?h { ?a ?b ?c } }",
+    "SELECT * WHERE { ?s ?p ?o GRAPH ?g { ?a ?b ?c } }",
+    "SELECT * WHERE { GRAPH ?g { ?s ?p ?o ; } { ?a ?b ?c } UNION { GRAPH ?g { ?a ?b ?c ; } } }",
+    "INSERT DATA { <s> <p> <o> ; GRAPH <g> { <a> <b> <c> } }",
+    "INSERT DATA { <s> <p> <o> . GRAPH <g> { <a> <b> <c> ; } <x> <y> <z> ; GRAPH <h> { <a> <b> <c> } }",
+    "DELETE DATA { GRAPH <g> { <a> <b> <c> ; <d> <e> } <s> <p> <o> ; }",
+    "DELETE { ?s ?p ?o ; GRAPH ?g { ?a ?b ?c } } INSERT { ?s ?p ?o ; GRAPH ?g { ?a ?b ?c ; } } WHERE { ?s ?p ?o ; GRAPH ?g { ?a ?b ?c } }",
+    "INSERT { ?s ?p ?o ; GRAPH ?g { ?a ?b ?c } } WHERE { ?s ?p ?o ; }",
+    "DELETE WHERE { ?s ?p ?o ; GRAPH ?g { ?a ?b ?c } }",
+    "SELECT * WHERE { ?s ?p ?o ; FILTER(?o > 1) }",
+    # the other keyword look-aheads of the grammar
+    "PREFIX ex: <http://e/> PREFIX : <#> SELECT DISTINCT ?s (SUM(?x) AS ?t) (MIN(?x) AS ?u) MAX(?x) AVG(?x) FROM <g> FROM NAMED <h> WHERE { ?s ex:p ?x } GROUP BY ?s ORDER BY DESC(?s) ASC(?t) ?u LIMIT 3",
+    "SELECT ?s WHERE { ?s ?p ?o } ORDER BY ?s , ?p LIMIT 10",
+    "SELECT ?s { ?s ?p ?o } GROUP BY ?s LIMIT 1",
+    "SELECT * WHERE { ?s ?p ?o FILTER(ISTRIPLE(?o) && SUBJECT(?o) = ?s || !(TRIPLE(?s, ?p, ?o) != ?o)) BIND(f(?s, 'x') AS ?b) VALUES ?v { UNDEF true false 1 } VALUES (?x ?y) { (UNDEF 1) (<a> 'b') } }",
+    "SELECT * WHERE { ?s ?p true , false . { SELECT ?s WHERE { ?s ?p ?o } ORDER BY ?s } UNION { SELECT DISTINCT * { ?s ?p ?o } LIMIT 2 } }",
+    "SELECT * WHERE { ?s ?p ?o } LIMIT 5 # done",
+]
+
+
+def kw_variants(rng, text):
+    """the same request with its keywords in other letter cases: all lower, all capitalised, each keyword alone in
+    lower case, and two random mixtures"""
+    spans = [m.span() for m in KW_RE.finditer(text)]
+    out = []
+
+    def rewrite(fn):
+        t, k = [], 0
+        for idx, (a, b) in enumerate(spans):
+            t.append(text[k:a])
+            t.append(fn(idx, text[a:b]))
+            k = b
+        t.append(text[k:])
+        return "".join(t)
+    out.append(rewrite(lambda i, w: w.lower()))
+    out.append(rewrite(lambda i, w: w.capitalize()))
+    for j in range(len(spans)):
+        out.append(rewrite(lambda i, w: w.lower() if i == j else w))
+    for _ in range(2):
+        out.append(rewrite(lambda i, w: "".join(c.lower() if rng.random() < 0.5 else c.upper() for c in w)))
+    return [v for v in dict.fromkeys(out) if v != text]
+
+
+def stream_kwcase(ctx, binpath):
+    """Spec: the syntax tree does not depend on the letter case of keywords.  Every template (keywords in upper case)
+    and its re-spellings must give the same outcome: the same tree, or an error in both.  Covers every keyword
+    look-ahead site of the grammar (after a dangling `;`, after `.`, inside quad blocks, solution modifiers, ...)."""
+    rng = ctx.rng
+    cases = []
+    for t in KWCASE_TEMPLATES:
+        for v in kw_variants(rng, t):
+            cases.append((t, v))
+    texts = list(dict.fromkeys([t for t in KWCASE_TEMPLATES] + [v for _, v in cases]))
+    res = dict(zip(texts, ctx.run_impl(binpath, [{"k": "parse", "entry": "combined", "s": x} for x in texts])))
+    nv = nok = 0
+    for base, var in cases:
+        ctx.count()
+        nv += kwcase_check(ctx, base, var, res[base], res[var])
+        nok += bool(res[base]) and "ok" in res[base]
+    ctx.stream("kwcase", templates=len(KWCASE_TEMPLATES), variants=len(cases), accepted_bases=nok, spec_violations=nv)
+
+
+def kwcase_check(ctx, base, var, rb, rv):
+    vb = impl_parse_value("combined", rb, len(base.encode("utf-8")))
+    vv = impl_parse_value("combined", rv, len(var.encode("utf-8")))
+    case = {"stream": "kwcase", "k": "kwcase", "base": base, "s": var}
+    if vv[0] in ("Panic", "Died") or vb[0] in ("Panic", "Died"):
+        ctx.violation(case, {"what": "parser crashed", "base": repr(vb)[:300], "variant": repr(vv)[:300]})
+        return 1
+    same = (vb == vv) if vb[0] == "Ok" or vv[0] == "Ok" else (vb[0] == vv[0])
+    if not same:
+        ctx.violation(case, {"what": "the outcome depends on the letter case of a keyword (Spec: same tree independent of keyword case)",
+                             "base": repr(vb)[:600], "variant": repr(vv)[:600]})
+        return 1
+    if vb[0] == "Ok":
+        ctx.nontrivial(("kwcase", var))
+    return 0
 
 
 def keyword_assumption(ctx):
@@ -1671,14 +1794,24 @@ ASSUME = [
 ]
 
 
+def c16_binary(ctx):
+    """development aid: VERIF_C16_BIN=<driver built against a private copy of the repository> (seeded-change confirmation
+    without touching /repo); the verdict of such a run is about that copy"""
+    override = os.environ.get("VERIF_C16_BIN")
+    if override:
+        ctx.log("USING DRIVER OVERRIDE %s (not /repo)" % override)
+        return override
+    return ctx.harness("c16")
+
+
 def run(ctx):
     ctx.coq(SUB, "C16.v")
-    binpath = ctx.harness("c16")
+    binpath = c16_binary(ctx)
     only = os.environ.get("C16_STREAMS")          # development aid: run a subset of the streams
     on = (lambda name: True) if not only else (lambda name: name in only.split(","))
     keyword_assumption(ctx)
     for name, fn in (("corpus", stream_corpus), ("known", replay_known), ("tables", stream_tables), ("scan", stream_scan),
-                     ("followers", stream_followers), ("tree", stream_tree), ("mutants", stream_mutants), ("deep", stream_deep)):
+                     ("followers", stream_followers), ("kwcase", stream_kwcase), ("tree", stream_tree), ("mutants", stream_mutants), ("deep", stream_deep)):
         if on(name):
             fn(ctx, binpath)
             ctx.log("stream %s done" % name)
@@ -1698,7 +1831,7 @@ def run(ctx):
 
 
 def replay(ctx):
-    binpath = ctx.harness("c16")
+    binpath = c16_binary(ctx)
     c = ctx.replay.get("case") or {}
     if not c and ctx.replay.get("broken"):
         c = ctx.replay["broken"][0].get("case") or {}
@@ -1721,4 +1854,7 @@ def replay(ctx):
             ctx.violation(c, {"what": "parser crashed", "impl": res})
     elif k == "mut":
         run_mutants(ctx, binpath, [c["s"]], "replay", 0)
+    elif k == "kwcase":
+        rb, rv = ctx.run_impl(binpath, [{"k": "parse", "entry": "combined", "s": c["base"]}, {"k": "parse", "entry": "combined", "s": c["s"]}], shards=1)
+        kwcase_check(ctx, c["base"], c["s"], rb, rv)
     ctx.finish(level="proof", rule=PROP_RULE, trusted_base=TRUSTED, assumptions=ASSUME)
